@@ -3,6 +3,7 @@ CONSTANTS HW = 7
           Anchors = {1, 2}
           NMax = 8
           GenMod = 1
+          TPad = 3
 INIT Init
 NEXT Eval
 INVARIANT AdjustLaw
